@@ -14,18 +14,18 @@ import (
 // valid once a token was consumed, with the fact fb about the current token), c (steps since the
 // consumption that made the progress snapshot differ).
 type variant struct {
-	fn     *fnInfo
-	g      *cfg
-	pre    fact
-	key    string
-	id     int
-	fa, fb []fact
-	callV  []*variant
-	cDef   []bool
+	fn      *fnInfo
+	g       *cfg
+	pre     fact
+	key     string
+	id      int
+	fa, fb  []fact
+	callV   []*variant
+	cDef    []bool
 	A, B, C []int64
-	Ldef   bool
+	Ldef    bool
 	L, T, E int64
-	sig    string
+	sig     string
 }
 
 func (v *variant) aDef(i int) bool { return !v.fa[i].isEmpty() }
@@ -66,7 +66,7 @@ func popcount(s tokset) int {
 	return c
 }
 
-func (a *analysis) notEOF() fact { return fact{true, setOf(a.pk.eofVal)} }
+func (a *analysis) notEOF() fact    { return fact{true, setOf(a.pk.eofVal)} }
 func (a *analysis) onlyEOF() tokset { return setOf(a.pk.eofVal) }
 
 // strongest precondition a call site with fact f uses
@@ -813,7 +813,6 @@ func (a *analysis) enclosingLoop(fn *fnInfo, poss []token.Pos) string {
 	}
 	return a.pk.posString(best)
 }
-
 
 func (a *analysis) aEdgeOK(v *variant, i int, e edge) bool {
 	switch e.kind {
